@@ -307,3 +307,106 @@ class Run:
         ev['coverage']['broken_obligations'] = self.broken
         open(os.path.join(VERIF, 'evidence', prop + '.json'), 'w').write(json.dumps(ev, indent=1, default=str) + '\n')
         return rc
+
+
+# ------------------------------------------------------------------------------------------------
+# utapdump jobs
+def build_utapdump(flavour='rel'):
+    import gen_kinds
+    gen_kinds.write_header()
+    return build_bin('utapdump', ['utapdump.cpp'], flavour, extra=['-I' + os.path.join(WORK, 'gen')],
+                     header_deps=[os.path.join(WORK, 'gen', 'kinds_gen.h')])
+
+
+class Job:
+    """builds the byte stream utapdump reads"""
+    def __init__(self):
+        self.parts = []
+        self.ids = []
+    def case(self, cid, fork=False, old=False):
+        self.ids.append(cid)
+        self.parts.append(('CASE %s%s%s\n' % (cid, ' fork' if fork else '', ' old' if old else '')).encode())
+        return self
+    def data(self, op, arg, text):
+        b = text if isinstance(text, bytes) else text.encode('utf-8', 'surrogateescape')
+        head = '%s %s %d\n' % (op, arg, len(b)) if arg != '' else '%s %d\n' % (op, len(b))
+        self.parts.append(head.encode() + b + b'\n')
+        return self
+    def model(self, kind, text): return self.data('MODEL', kind, text)
+    def expr(self, text): return self.data('EXPR', '', text)
+    def texpr(self, text): return self.data('TEXPR', '', text)
+    def rt(self, text): return self.data('RT', '', text)
+    def laws(self, text): return self.data('LAWS', '', text)
+    def query(self, text, rt=True): return self.data('QUERY', 'rt' if rt else 'plain', text)
+    def part(self, partno, text): return self.data('PART', str(partno), text)
+    def pretty(self, partno, text): return self.data('PRETTY', str(partno), text)
+    def prettyq(self, text): return self.data('PRETTYQ', '', text)
+    def cmd(self, line):
+        self.parts.append((line + '\n').encode())
+        return self
+    def dump(self, what): return self.cmd('DUMP ' + what)
+    def end(self): return self.cmd('END')
+    def bytes(self): return b''.join(self.parts)
+
+
+def parse_dump(out):
+    """-> {case id: dict(status=..., cmds=[(op, arg, [lines])])}"""
+    res, cur, cmd = {}, None, None
+    for line in out.split('\n'):
+        if line.startswith('== '):
+            cur = dict(status='MISSING', cmds=[])
+            res[line[3:].strip()] = cur
+            cmd = None
+        elif line.startswith('-- ') and cur is not None:
+            cur['status'] = line.split(' ', 2)[2] if line.count(' ') >= 2 else '?'
+            cur = None
+        elif cur is not None:
+            if line.startswith('#') and re.match(r'#\d+ ', line):
+                p = line.split(' ')
+                cmd = (p[1], p[2] if len(p) > 2 else '', [])
+                cur['cmds'].append(cmd)
+            elif cmd is not None:
+                cmd[2].append(line)
+    return res
+
+
+def run_jobs(job, flavour='rel', timeout=3000, shards=16, env=None):
+    """runs the job (a Job, split per case over `shards` processes) and returns parse_dump's dict"""
+    exe = build_utapdump(flavour)
+    # split at CASE boundaries
+    blob = job.bytes()
+    idx = [m.start() for m in re.finditer(rb'(?m)^CASE ', blob)]
+    cases = [blob[a:b] for a, b in zip(idx, idx[1:] + [len(blob)])]
+    shards = max(1, min(shards, len(cases)))
+    chunks = [b''.join(cases[i::shards]) for i in range(shards)]
+    e = dict(os.environ)
+    e['ASAN_OPTIONS'] = 'detect_leaks=0:abort_on_error=1:allocator_may_return_null=1'
+    e['UBSAN_OPTIONS'] = 'halt_on_error=1:abort_on_error=1:print_stacktrace=1'
+    e['UTAP_VERIF_NO_DLOPEN'] = '1'
+    if env:
+        e.update(env)
+    procs = [subprocess.Popen([exe], stdin=subprocess.PIPE, stdout=subprocess.PIPE, stderr=subprocess.PIPE, env=e) for _ in chunks]
+    import threading
+    outs = [None] * len(procs)
+    def feed(i):
+        try:
+            o, er = procs[i].communicate(chunks[i], timeout=timeout)
+        except subprocess.TimeoutExpired:
+            procs[i].kill()
+            o, er = procs[i].communicate()
+        outs[i] = (o.decode('utf-8', 'replace'), er.decode('utf-8', 'replace'), procs[i].returncode)
+    th = [threading.Thread(target=feed, args=(i,)) for i in range(len(procs))]
+    for t in th: t.start()
+    for t in th: t.join()
+    res = {}
+    stderr_tail = ''
+    for o, er, rc in outs:
+        res.update(parse_dump(o))
+        if rc != 0:
+            stderr_tail += er[-1500:]
+    for cid in job.ids:
+        if cid not in res:
+            res[cid] = dict(status='MISSING', cmds=[])
+    # a non-forked shard that died takes the rest of its cases with it: mark the first unfinished one
+    res['_stderr'] = stderr_tail
+    return res
